@@ -11,6 +11,8 @@ the statement is left as written.
 * ``d.update(k=v, ...)`` (keywords only, statement)  ->  ``d['k'] = v; ...`` for a local only ever bound to dict displays;
 * ``x = y = v`` with a constant v  ->  ``x = v; y = v``;
 * ``x = A if C else B``  ->  ``if C: x = A`` / ``else: x = B``;
+* ``t = (a, b) ... p, q = t``  ->  ``p = a; q = b`` when that display is the only definition of t reaching the unpacking and a, b
+  are not re-bound in between;
 * ``while True: if not C: break; BODY``  ->  ``while C: BODY`` (no else clause);
 * ``for c, x in enumerate(Y, start=K)`` (K a non-zero int constant, c not assigned in the body)  ->
   ``c = K - 1`` / ``for x in Y: c += 1; ...`` - the running count of the elements seen so far.  (After a loop over an empty
@@ -253,7 +255,47 @@ def _block(fn, stmts: List[ast.stmt]) -> List[ast.stmt]:
     return out
 
 
+def _forward_tuples(fn) -> bool:
+    """'t = (a, b); ...; p, q = t'  ->  'p, q = (a, b)' when that display is the only definition of t reaching the unpacking
+    and a, b are names / constants not re-bound in between (reaching definitions on the function's CFG)."""
+    cands = [s for s in ast.walk(fn) if isinstance(s, ast.Assign) and len(s.targets) == 1 and isinstance(s.targets[0], ast.Tuple)
+             and isinstance(s.value, ast.Name) and all(isinstance(e, ast.Name) for e in s.targets[0].elts)]
+    if not cands:
+        return False
+    from .cfg import CFG
+    try:
+        cfg = CFG(fn)
+    except Exception:  # pragma: no cover - a construct the CFG does not model: leave the function alone
+        return False
+    rd = cfg.reaching()
+    changed = False
+    for s in cands:
+        n = cfg.stmt_node.get(s)
+        if n is None:
+            continue
+        defs = rd.get(n, {}).get(s.value.id, set())
+        if len(defs) != 1:
+            continue
+        (d,) = defs
+        dst = cfg.nodes[d].ast if cfg.nodes[d].kind == "stmt" else None
+        if not (isinstance(dst, ast.Assign) and len(dst.targets) == 1 and isinstance(dst.targets[0], ast.Name)
+                and isinstance(dst.value, ast.Tuple) and len(dst.value.elts) == len(s.targets[0].elts)
+                and all(isinstance(e, (ast.Name, ast.Constant)) for e in dst.value.elts)):
+            continue
+        if any(isinstance(e, ast.Name) and rd.get(d, {}).get(e.id, set()) != rd.get(n, {}).get(e.id, set()) for e in dst.value.elts):
+            continue
+        s.value = ast.copy_location(copy.deepcopy(dst.value), s.value)
+        changed = True
+    return changed
+
+
 def normalise_function(fn):
+    _normalise_function_once(fn)
+    if _forward_tuples(fn):
+        _normalise_function_once(fn)  # the forwarded displays are split into plain assignments
+
+
+def _normalise_function_once(fn):
     d = _Displays()
     for i, s in enumerate(fn.body):
         if not isinstance(s, _SCOPES):
